@@ -60,7 +60,7 @@ def gen_struct_split(ch):
 
 def build_cases(tier):
     K = 1 if tier == "quick" else 2
-    split = dict(FEATS, grids=["8x6h"], modes=["split:12h", "split:d"])
+    split = dict(FEATS, grids=["8x6h"], modes=["split:12h", "split:d"], common_window=[8, 1, 9])
     fams = [family("main", lambda ch: S.gen_portfolio(ch, FEATS), K),
             family("split", lambda ch: S.gen_portfolio(ch, split), K),
             family("wrapped", c07.gen_wrapped, K),
